@@ -26,6 +26,10 @@ func main() {
 	replay := flag.String("replay", "", "replay file (JSON with an ops list)")
 	work := flag.String("work", "", "scratch directory (default: the system temporary directory)")
 	victim := flag.String("victim", "", "internal: run as the victim process of the disk component (JSON spec)")
+	locate := flag.Bool("locate", false, "crash isolation: regenerate the cases and run them in a child process to find the one the process dies on")
+	childCases := flag.String("childcases", "", "internal: run the implementation on the cases of this file (child of -locate)")
+	from := flag.Int("from", 0, "internal: first case index (child of -locate)")
+	to := flag.Int("to", -1, "internal: end case index (child of -locate)")
 	flag.Parse()
 	if *victim != "" {
 		runVictim(*victim)
@@ -42,6 +46,14 @@ func main() {
 	if !ok {
 		fmt.Fprintln(os.Stderr, "unknown component", flag.Arg(0))
 		os.Exit(2)
+	}
+	if *childCases != "" {
+		runChild(mk(), *childCases, *from, *to)
+		return
+	}
+	if *locate {
+		writeJSON(*out, locateCrash(mk(), *seed, *n))
+		return
 	}
 	var rc *Case
 	if *replay != "" {
